@@ -210,7 +210,7 @@ def one(ctx, rng, k, prop="C14"):
 
 def run_shard(ctx):
     logging.getLogger("pymoca").setLevel(logging.ERROR)
-    for k in range(ctx.n(1200, 40000)):
+    for k in range(ctx.n(4000, 40000)):
         if ctx.out_of_time():
             break
         ctx.guarded(one, ctx, ctx.rng, k, timeout=120)
